@@ -283,3 +283,55 @@ def cases_group(repo, which):
     obls.append(Obligation("canary.float_of_decimal_ignores_the_scaler", [e != 0, m != 0], F_OF_DEC(m, e) == F_OF_INT(m), kind="canary", expect_refuted=True))
     info = {"cases": list(cases), "construct_rules_used": sorted(eng.decoder_stats["rules"]), "parses": eng.decoder_stats["parses"]}
     return eng, obls, info
+
+
+# ----------------------------------------------------------------------------- C12: rejection lemmas (a genuine list is refused by every decoder the AutoDecoder tries before its own)
+BINARY_TABLE = [("Aidon_frame", "han.aidon", "decode_frame_content"), ("Kaifa_frame", "han.kaifa", "decode_frame_content"), ("Kamstrup_frame", "han.kamstrup", "decode_frame_content"), ("P1", None, None),
+                ("Aidon_notification_body", "han.aidon", "decode_notification_body"), ("Kaifa_notification_body", "han.kaifa", "decode_notification_body"), ("Kamstrup_notification_body", "han.kamstrup", "decode_notification_body")]
+REJECT_EXC = ("construct.ConstructError", "ValueError", "UnicodeDecodeError")
+
+def reject_obligations(eng, module, func, inp, label, V, entry):
+    """run another meter's real decoder on the fixed-layout symbolic input: every path must end in ConstructError / ValueError (what AutoDecoder catches)"""
+    q = f"{module}.{func}"
+    fn, mod, cls = eng.funcs[q]
+    ctx = Ctx(eng, mod, cls, q, root_name=f"{q}[refuses: {label}]"); ctx.verifying = q; ctx.fork_implicit = True
+    st = State(); st.pc += list(V.cons)
+    st.locals = {fn.args.args[0].arg: LayoutBytes(inp)}
+    def wit(m):
+        octs = [int(b) if isinstance(b, int) else m.eval(b, model_completion=True).as_long() for b in inp]
+        return {"module": module, "func": func, "layout": label, "input": octs, "reject": True, "fields": {nm: [m.eval(b, model_completion=True).as_long() for b in bs] for nm, bs in V.fields.items()}}
+    n = 0
+    for st1, flow, val in eng.exec_block(fn.body, st, ctx):
+        if not eng.feasible(st1): continue
+        n += 1
+        if flow == RAISE:
+            excs = val.exc if isinstance(val.exc, tuple) else (val.exc,)
+            ok = all(any(eng.exc_matches(e, x) for x in ("construct.ConstructError", "ValueError")) for e in excs)
+            if not ok: ctx.oblige(st1, f"raises:only ConstructError / ValueError ({val.exc}: {val.info})", z3.BoolVal(False), fn)
+            continue
+        ctx.oblige(st1, f"post:the '{entry}' decoder refuses a genuine list of another meter (it is tried before the list's own decoder)", z3.BoolVal(False), fn)
+    if n == 0: ctx.oblige(st, "cover:the decoder runs on the layout", z3.BoolVal(False), fn)
+    if not ctx.obls:      # every path rejected without leaving an obligation: record the fact as one discharged obligation
+        ctx.obls.append(Obligation(f"{q}[refuses: {label}]#post:every path ends in ConstructError / ValueError ({n} paths)", list(V.cons)[:0], z3.BoolVal(True), kind="post", func=q))
+    for o in ctx.obls: o.meta.update(replay="replay_reject", witness=wit)
+    return ctx.obls
+
+def genuine_group(repo):
+    """for every documented list: each binary decoder that a fresh AutoDecoder tries before the list's own decoder refuses it"""
+    gr = G.dump_grammars(repo, GRAMMARS); eng = mk_engine(repo, gr); eng.prelude_axioms += float_axioms()
+    obls = []; pairs = []
+    for fam in ("aidon_cases", "kaifa_cases", "kamstrup_cases"):
+        for label, build in getattr(SP, fam)().items():
+            V0 = SymV(); module, func, octs, exp = build(V0)
+            own = next(i for i, (nm, m_, f_) in enumerate(BINARY_TABLE) if m_ == module and f_ == func)
+            for i in range(own):
+                nm, m_, f_ = BINARY_TABLE[i]
+                if m_ is None:
+                    # the P1 text decoder: its contract (proved in the p1text group) says it returns only for text without control octets; every list starts with the array / structure tag
+                    first = octs[0]
+                    ok = isinstance(first, int) and ((first < 0x20 and first not in (0x0A, 0x0D)) or first >= 0x80)
+                    obls.append(Obligation(f"han.dlde.decode_p1_readout_content[refuses: {label}]#pre-of-refusal:the list starts with a control or non-ASCII octet ({first!r})", [], z3.BoolVal(bool(ok)), kind="post", func="han.dlde.decode_p1_readout_content"))
+                    pairs.append((label, nm)); continue
+                V = SymV(); module, func, octs, exp = build(V)
+                obls += reject_obligations(eng, m_, f_, octs, label, V, nm); pairs.append((label, nm))
+    return eng, obls, {"pairs": len(pairs), "construct_rules_used": sorted(eng.decoder_stats["rules"])}
